@@ -4,6 +4,7 @@ import (
 	"encoding/json"
 	"fmt"
 	"math/rand"
+	"os"
 	"sort"
 	"strings"
 	"sync"
@@ -66,6 +67,17 @@ func genC19(ref core.CaseRef, r *rand.Rand, quick bool) *c19Cfg {
 	}
 	c.Perturb = r.Intn(4) > 0
 	c.PerturbSeed = r.Int63()
+	if ref.Index%6 == 1 {
+		// many small expansions while several producers keep refilling the slots a fast consumer frees: the
+		// buffer grows one slot at a time from below its trigger threshold, so every expansion samples a
+		// queue that is still being written to
+		c.Strategy, c.Producers, c.Buf, c.Growth, c.MinInc = "expand", pick(r, []int{8, 16}), pick(r, []int{4, 8, 16}), 1.01, 1
+		c.Threshold, c.MaxBuf, c.SinkDelayUs, c.BlockMs, c.Perturb = pick(r, []float64{0.5, 0.8}), 4096, 0, 0, true
+		c.RowsPer = 600 + r.Intn(600)
+		if !quick {
+			c.RowsPer *= 3
+		}
+	}
 	return c
 }
 
@@ -84,7 +96,11 @@ func runC19(ctx *core.Ctx) {
 			childC19(ctx, b)
 			return
 		}
+		t0 := time.Now()
 		out := ctx.RunChild(c, 180*time.Second)
+		if d := time.Since(t0); d > 10*time.Second && os.Getenv("C19_DEBUG") != "" {
+			fmt.Fprintf(os.Stderr, "c19 case %d took %v: %s\n", i, d, core.J(c))
+		}
 		attrs := map[string]string{"strategy": c.Strategy, "producers": fmt.Sprint(c.Producers), "perturb": fmt.Sprint(c.Perturb)}
 		switch {
 		case out.TimedOut:
@@ -151,9 +167,14 @@ func childC19(ctx *core.Ctx, raw []byte) {
 	})
 	if c.Perturb {
 		sched.Seed(c.PerturbSeed)
-		sched.Set(&sched.Perturb{Prob: map[string]float64{
+		pp := &sched.Perturb{Prob: map[string]float64{
 			"proc.chan_read": 0.02, "expand.migrate_item": 0.3, "expand.before_lock": 0.5, "send.before_rlock": 0.01,
-		}, MaxSleep: 400 * time.Microsecond, SleepShare: 0.6})
+		}, MaxSleep: 400 * time.Microsecond, SleepShare: 0.6}
+		if c.Growth < 1.05 {
+			// thousands of one-slot expansions: delay only the gap between sampling the queue and locking it
+			pp.Prob["expand.migrate_item"], pp.Prob["proc.chan_read"], pp.MaxSleep = 0.002, 0.002, 150*time.Microsecond
+		}
+		sched.Set(pp)
 	}
 	exp := types.ExpansionConfig{GrowthFactor: c.Growth, MinIncrement: c.MinInc, TriggerThreshold: c.Threshold, ExpansionTimeout: 5 * time.Second}
 	s, err := eng.New("SELECT id, p FROM stream", eng.Opts{Strategy: c.Strategy, DataChan: c.Buf, MaxBuffer: c.MaxBuf, Expansion: &exp,
